@@ -45,6 +45,9 @@ CLAIMED = {
     "C11": dict(level="model_checking", ref="4/C11", technique="TLA+ trace validation (FormatTrace: idempotence, equal compiled models, value of the formatted expression vs Pratt!Parse of the original tokens) of RoocParser::format on TLC-enumerated expression strings and a program corpus",
                 text="Every expression string TokGen enumerates up to 5 tokens (all parenthesised and implicit-product shapes) plus operator triples and simulated longer strings, and hand-written programs covering blocks, iterations, graphs, indexed/escaped names and all declaration forms, are formatted by the real formatter, formatted again, and compiled before and after; FormatTrace.tla decides parse-ability, idempotence and model equality.",
                 note="programs beyond expressions are a fixed hand-written corpus (17 programs); model equality is record equality of the serialised Model"),
+    "C12": dict(level="exploration", ref="4/C12", technique="TLA+ trace validation (RenderTrace: exact comparison of the recompiled linear model by sign and bit pattern, fixed point of the rendering) of Model::to_string / LinearModel::to_string through the whole real front end",
+                text="Models of the corpus-K families (rendered to source first, a third again with magnitudes 1e-9..1e9) and the program corpus are compiled; both renderings are fed back through parser, type checker, transformer and linearizer; RenderTrace.tla compares variables, domains, objective, offset, sense and the multiset of rows exactly and the second rendering with the first. Three degenerate shapes that cannot survive a text round trip literally are classified by the specification and listed as known findings.",
+                note="sampled families, not exhaustive; differences explained by the three KNOWN-SHAPE classes are reported as known findings, any other difference is a violation"),
 }
 NOT_YET = {}
 ALL = [f"C{i:02d}" for i in range(1, 21)]
